@@ -211,6 +211,30 @@ func (env *SpecEnv) typeOfExpr(x ast.Expr) types.Type {
 		return types.NewMap(env.typeOfExpr(t.Key), env.typeOfExpr(t.Value))
 	case *ast.InterfaceType:
 		return types.NewInterfaceType(nil, nil)
+	case *ast.FuncType:
+		var ps, rs []*types.Var
+		if t.Params != nil {
+			for _, f := range t.Params.List {
+				ft := env.typeOfExpr(f.Type)
+				n := len(f.Names)
+				if n == 0 {
+					n = 1
+				}
+				for i := 0; i < n; i++ {
+					nm := ""
+					if i < len(f.Names) {
+						nm = f.Names[i].Name
+					}
+					ps = append(ps, types.NewVar(0, nil, nm, ft))
+				}
+			}
+		}
+		if t.Results != nil {
+			for _, f := range t.Results.List {
+				rs = append(rs, types.NewVar(0, nil, "", env.typeOfExpr(f.Type)))
+			}
+		}
+		return types.NewSignatureType(nil, nil, nil, types.NewTuple(ps...), types.NewTuple(rs...), false)
 	}
 	env.fail("unsupported type expression %s", types.ExprString(x))
 	return nil
@@ -1047,6 +1071,14 @@ func (env *SpecEnv) call(x *SExpr) (*Term, types.Type) {
 					cl, so = "GI|"+args[1].Name, arraySort("Iface", sortOf(t))
 				}
 				return Select(env.e.getMem(env.cur, cl, so), o), t
+			case "str":
+				// string(b) for a byte slice: a function of the slice header and the byte memory
+				b, bt := env.tr(args[0])
+				if sl, ok := types.Unalias(bt).Underlying().(*types.Slice); ok {
+					cl, so := memClass(sl.Elem())
+					return UF("bytes2str", StrSort, b, env.e.getMem(env.cur, cl, so)), types.Typ[types.String]
+				}
+				env.fail("str() needs a byte slice")
 			case "chr":
 				c, _ := env.tr(args[0])
 				if StrSort == "String" {
@@ -1114,6 +1146,29 @@ func (env *SpecEnv) call(x *SExpr) (*Term, types.Type) {
 			}
 		}
 	}
+	// call through a function value (a parameter or a spec variable of function type)
+	if fn.Kind == "id" {
+		var fv *Term
+		var ft types.Type
+		if v, ok := env.vars[fn.Name]; ok {
+			fv, ft = v.v, v.t
+		} else if env.e != nil {
+			if pv, ok := env.e.params[fn.Name]; ok {
+				fv, ft = pv.T, env.e.paramTy[fn.Name]
+			}
+		}
+		if fv != nil && ft != nil {
+			if sig, ok := types.Unalias(ft).Underlying().(*types.Signature); ok && sig.Results().Len() == 1 {
+				as := []*Term{fv}
+				for _, a := range args {
+					v, _ := env.tr(a)
+					as = append(as, v)
+				}
+				rt := sig.Results().At(0).Type()
+				return UF("apply!"+sigKey(ft), sortOf(rt), as...), rt
+			}
+		}
+	}
 	// pure method / function with a contract
 	if t, ty, ok := env.pureCall(fn, args); ok {
 		return t, ty
@@ -1150,6 +1205,12 @@ func (env *SpecEnv) findSpec(name string) *SpecFunc {
 	return nil
 }
 
+type recDef struct {
+	params []*Term
+	body   *Term
+}
+
+var recDefs = map[string]*recDef{}
 var recSpecDone = map[string]bool{}
 var recPass1 = map[string]bool{}
 var recSpecMem = map[string][][2]string{}
@@ -1222,8 +1283,10 @@ func (env *SpecEnv) applySpec(sf *SpecFunc, args []*SExpr) (*Term, types.Type) {
 		}
 		if !recSpecDone[name] {
 			recSpecDone[name] = true
+			var recParamList []*Term
 			build := func(st *State) (*Term, []string) {
 				var ps []string
+				recParamList = nil
 				n := &defEnv
 				n.vars = map[string]specVar{}
 				n.scopePos = token.NoPos
@@ -1236,6 +1299,7 @@ func (env *SpecEnv) applySpec(sf *SpecFunc, args []*SExpr) (*Term, types.Type) {
 						dom := BVar("a!"+p.Name+"!dom", arrayElemSort(ds))
 						val := BVar("a!"+p.Name+"!val", arrayElemSort(vs))
 						ps = append(ps, fmt.Sprintf("(%s %s)", dom.Name, dom.Sort), fmt.Sprintf("(%s %s)", val.Name, val.Sort))
+						recParamList = append(recParamList, dom, val)
 						views := n.mapViews
 						n = n.with(p.Name, bv, ats[i])
 						n.mapViews = views
@@ -1243,6 +1307,7 @@ func (env *SpecEnv) applySpec(sf *SpecFunc, args []*SExpr) (*Term, types.Type) {
 						continue
 					}
 					ps = append(ps, fmt.Sprintf("(%s %s)", bv.Name, bv.Sort))
+					recParamList = append(recParamList, bv)
 					n = n.with(p.Name, bv, ats[i])
 				}
 				n.depth = 0
@@ -1280,7 +1345,19 @@ func (env *SpecEnv) applySpec(sf *SpecFunc, args []*SExpr) (*Term, types.Type) {
 			}
 			var sb strings.Builder
 			body.write(&sb, nil)
-			TC.decls[name] = fmt.Sprintf("(define-fun-rec %s (%s) %s %s)", name, strings.Join(ps, " "), sortOf(rt), sb.String())
+			// declared uninterpreted; its defining equation is added per ground application
+			// (bounded unfolding) by the instantiation step
+			var psorts []string
+			for _, pb := range recParamList {
+				psorts = append(psorts, pb.Sort)
+			}
+			for _, ci := range cinfo {
+				psorts = append(psorts, ci[1])
+				recParamList = append(recParamList, st2.recMem[ci[0]])
+			}
+			_ = sb
+			TC.decls[name] = fmt.Sprintf("(declare-fun %s (%s) %s)", name, strings.Join(psorts, " "), sortOf(rt))
+			recDefs[name] = &recDef{params: recParamList, body: body}
 			var deps []string
 			seen := map[int]bool{}
 			var walk func(t *Term)
